@@ -396,13 +396,17 @@ class _ScopeContext:
     def walk_Comp(self, ast: AST) -> Generator[fst.FST, bool, None]:
         """See `walk_funcdef()`. This gets messy if the first generator iterator is a scope itself."""
 
-        fst_ = ast.f
+        return self._walk_Comp_part(ast.f, ast.generators[0].iter, False)
+
+    def _walk_Comp_part(self, fst_: fst.FST, first_iter: AST | None, self_: bool) -> Generator[fst.FST, bool, None]:
+        """Walk `fst_` which is either a whole Comprehension or the default value of an argument of a `Lambda` which lives
+        inside one and return what belongs to the enclosing scope."""
+
         all = self.all
         back = self.back
         check_all_param = self.check_all_param
-        first_iter = ast.generators[0].iter
 
-        gen = fst_.walk(False, self_=False, back=back)  # no scope=True here because we do it manually, not `all` because that only filters what is returned and we need to find the first iterator and the walrus targets regardless of what they are
+        gen = fst_.walk(False, self_=self_, back=back)  # no scope=True here because we do it manually, not `all` because that only filters what is returned and we need to find the first iterator and the walrus targets regardless of what they are
 
         for f in gen:  # we want to return all NamedExpr.target and first top-level .iter, yeah, its ugly
             a = f.a
@@ -451,6 +455,14 @@ class _ScopeContext:
                         pass
 
                 gen.send(False)  # we processed this node here so don't recurse into it
+
+            elif a.__class__ is Lambda:  # a Lambda is its own scope so the NamedExpr.targets in its body are not ours, only the ones in its argument defaults which are evaluated outside of it
+                self.stack_Lambda(a, asts := [], True)
+                gen.send(False)
+
+                for d in (asts[::-1] if back else asts):
+                    if d:  # kw_defaults can have None
+                        yield from self._walk_Comp_part(d.f, None, True)
 
 _SCOPE_WALK_FUNCS = {  # the boolean indicates whether it is a normal function or a generator
     FunctionDef:      (_ScopeContext.stack_funcdef, False),
